@@ -432,6 +432,7 @@ func main() {
 		fixedBulk := 0
 		var extraModes []Fault
 		twins := false
+		memoToo := false
 		switch {
 		case *only == "" && i < len(coverage):
 			prefix = append(prefix, coverageData)
@@ -496,6 +497,22 @@ func main() {
 				s.Text = strings.Replace(s.Text, "INTO ?b ", "INTO ?b, ?b ", 1)
 			}
 			fixedBulk = 100
+		case *only == "" && i <= len(coverage)+len(pool)+3+len(limitShapes)+3+1:
+			// sized reads: a lookup that delivers more than 300 elements and then fails (also through the memoizer,
+			// which must not turn an oversized-but-failed result into success)
+			k := i - len(coverage) - len(pool) - 3 - len(limitShapes) - 3
+			var tt []string
+			for j := 0; j < 320; j++ {
+				tt = append(tt, fmt.Sprintf(`/u<n%d> "p"@[] /u<b>`, j))
+			}
+			prefix = append(prefix, "INSERT DATA INTO ?c { "+strings.Join(tt, " . ")+" };")
+			text := `SELECT ?s, ?o FROM ?c WHERE { ?s "p"@[] ?o };`
+			if k == 2 {
+				text = `SELECT ?s FROM ?c WHERE { ?s "p"@[] /u<b> };`
+			}
+			s = VStmt{Kind: "select", Ins: []string{"?c"}, Vars: []string{"?s"}, WB: []string{"?s"}, Text: text}
+			extraModes = []Fault{{Mode: "after", J: 300}, {Mode: "late", J: 300}, {Mode: "after", J: 257}}
+			memoToo = true
 		case *only != "":
 			s = VStmt{Kind: "text", Text: *only}
 		case i%10 == 5:
@@ -554,6 +571,9 @@ func main() {
 			for _, f := range modes {
 				if f.Mode == "late" && (id.Kind == "graph" || id.Kind == "newgraph" || id.Kind == "deletegraph") {
 					continue // nothing is streamed or partially applied there: same as "before"
+				}
+				if (f.Mode == "empty" || f.Mode == "typednil") && id.Kind == "read" && id.Occ > 0 && !*deep {
+					continue // quick tier: the empty error message on every write / graph call and on the first lookup per graph
 				}
 				r := oneRun(ctx, prefix, s, bulk, []SchedEntry{{id, f}}, b)
 				r.Case, r.Prev, r.Reads = i, prev, reads
@@ -621,7 +641,7 @@ func main() {
 			enc.Encode(r)
 		}
 		// the same statement through the memoizing store on top of the failing driver (joins: several lookups in flight)
-		if s.Kind == "select" && strings.Contains(s.Text, " . ") {
+		if memoToo || (s.Kind == "select" && strings.Contains(s.Text, " . ")) {
 			mm := oneRunOn(ctx, prefix, s, bulk, nil, b, true)
 			mm.Case, mm.Prev, mm.Reads = i, prev, reads
 			enc.Encode(mm)
@@ -631,7 +651,11 @@ func main() {
 					continue
 				}
 				mseen[c.key()] = true
-				for _, f := range modes {
+				mm := modes
+				if c.Kind == "read" {
+					mm = append(append([]Fault{}, modes...), extraModes...)
+				}
+				for _, f := range mm {
 					if c.Kind == "graph" && f.Mode != "before" {
 						continue
 					}
